@@ -656,6 +656,8 @@ def _call(node, env):
             if not all(isinstance(x, SV) and x.sort == 'int' and z3.is_int_value(x.t) for x in parts): raise Unmodelled('date() of non-constant parts')
             y, mo, d = [x.t.as_long() for x in parts]
             return SV('date', z3.IntVal(y * 10000 + mo * 100 + d))
+        if name == 'JOIN' and len(args) == 1:
+            return ev(args[0], env)                      # a translation hint: no effect on the value
         if name == 'exists' and len(args) == 1:
             return truth(env, ev(args[0], env))
         if name == 'between' and len(args) == 3:
